@@ -59,8 +59,8 @@ for d in sorted(glob.glob(os.path.join(ROOT, 'seeded', '*', 'meta.json'))):
     name = os.path.basename(os.path.dirname(d))
     hist = [h.get('caught') for h in m.get('check_history', [])]
     f = hist[0] if hist else m.get('caught')
-    n += 1; caught += bool(m.get('caught')); first += bool(f)
-    rows.append('| %s | %s | %s | %s | %s |' % (name, short((m.get('needs_to_manifest') or m.get('summary') or '').strip(), 160), 'yes' if m.get('qualifies') else 'no', 'yes' if f else 'no', 'yes' if m.get('caught') else ('no' if 'caught' in m else '-')))
+    n += 1; caught += bool(m.get('caught') or m.get('caught_by_other_check')); first += bool(f)
+    rows.append('| %s | %s | %s | %s | %s |' % (name, short((m.get('needs_to_manifest') or m.get('summary') or '').strip(), 160), 'yes' if m.get('qualifies') else 'no', 'yes' if f else 'no', 'yes' if m.get('caught') else (('no, but by ' + m['caught_by_other_check'].split(' ')[0]) if m.get('caught_by_other_check') else ('no' if 'caught' in m else '-'))))
 rows.append('\n%d seeded changes; %d caught at the first run, %d caught by the committed checks.' % (n, first, caught))
 s = re.sub(r'(<!-- BEGIN:seeded[^\n]*-->\n).*?(<!-- END:seeded -->)', lambda m: m.group(1) + '\n'.join(rows) + '\n' + m.group(2), s, flags=re.S)
 open(p, 'w').write(s)
